@@ -3,7 +3,10 @@
    result" is glue around the API (C05, C07 carry its content); most of the assurance for C16 comes
    from the differential run of the check (subprocess output parsed and compared with the in-process
    API), as the evidence states. *)
-From PCD Require Import Base.PyBase Model.Cli.
+From PCD Require Import Base.PyBase Base.Cfg Model.Data Model.Consts Model.Blocks Model.CodeData Model.Json
+  Model.Cli Model.LineTable Spec.Lnotab Spec.Dis Model.ViewSer Proofs.C02_Statements Proofs.C01_Statements
+  Proofs.C03b_Statements Proofs.C03c_Statements Proofs.C06_Statements Proofs.C07_Statements Proofs.NormalFormWf
+  Proofs.NormalizePreserves Proofs.RoundTrip Proofs.CliProofs.
 
 Definition exactly_one (a b c d : bool) : Prop :=
   (a = true /\ b = false /\ c = false /\ d = false) \/ (a = false /\ b = true /\ c = false /\ d = false) \/
@@ -23,3 +26,28 @@ Theorem C16_printed_value : forall (D : Type) (normalize : D -> D) d,
   cli_data normalize false d = normalize d /\ cli_data normalize true d = d.
 Proof. intros; split; reflexivity. Qed.
 Print Assumptions C16_printed_value.
+
+(* --json: the JSON section printed for a program loads back (from_json_data) to the value the command
+   prints - the normalized data by default, the decoded data with --no-normalize.  (C07 + C06) *)
+Theorem C16_json_section_loads_back_to_the_printed_value : forall (no_normalize : bool) d,
+  wfj_cd d = true ->
+  exists d', code_data_from_json (code_data_to_json (cli_data normalize no_normalize d)) = OK d'
+             /\ cd_eqb (cli_data normalize no_normalize d) d' = true.
+Proof. exact cli_json_loads_back. Qed.
+Print Assumptions C16_json_section_loads_back_to_the_printed_value.
+
+(* --dis-after with --no-normalize disassembles to_code of the decoded data: that IS the original code
+   object (C01), so the two listings are listings of the same object *)
+Theorem C16_dis_after_without_normalize_is_dis_of_the_same_code : forall c code d,
+  rt_wf_deep c (PCode code) && rt_extra_deep c (PCode code) = true ->
+  to_code_data c code = OK d ->
+  from_code_data c (cli_data normalize true d) = OK code.
+Proof. exact C01_roundtrip_x. Qed.
+Print Assumptions C16_dis_after_without_normalize_is_dis_of_the_same_code.
+
+(* --dis-after by default disassembles to_code of the NORMALIZED data: CPython reads it as the same
+   instruction stream as the original (opcodes, resolved operands, jump structure, lines) - offsets
+   and operand widths may differ.  (C05) *)
+Theorem C16_dis_after_shows_the_same_instructions : S_C05_view.
+Proof. exact C05_view. Qed.
+Print Assumptions C16_dis_after_shows_the_same_instructions.
